@@ -395,16 +395,82 @@ def check_spiders(ctx):
                mod=ZX, node=fn, sig="spider-" + colour)
 
 
+def methods_of(m, mod):
+    for c in sorted(m.classes.values(), key=lambda c: c.q):
+        if c.mod == mod:
+            for name, (st, kind) in sorted(c.methods.items()):
+                yield "%s.%s" % (c.q, name), st
+    for q, fn in sorted(m.functions.items()):
+        if q.startswith(mod + ".") and q.count(".") == mod.count(".") + 1:
+            yield q, fn
+
+
+def check_forwarding(ctx):
+    """R15.5: the options of a gradient (`mixed=`) reach every nested gradient; fallbacks accept them; evaluated arrays are not re-daggered"""
+    m = ctx.model
+    n = 0
+    for mod in (CIRC, GATES, ZX):
+        for q, fn in methods_of(m, mod):
+            if not isinstance(fn, ast.FunctionDef) or fn.name not in ("grad", "jacobian") or fn.args.kwarg is None:
+                continue
+            kw = fn.args.kwarg.arg
+            for c in ast.walk(fn):
+                if isinstance(c, ast.Call) and isinstance(c.func, ast.Attribute) and c.func.attr in ("grad", "jacobian"):
+                    fwd = any(k.arg is None and isinstance(k.value, ast.Name) and k.value.id == kw for k in c.keywords)
+                    ctx.ob("R15.5", "%s:%s" % (q, ast.unparse(c.func)), fwd, found=ast.unparse(c), required="the nested gradient receives **%s (the mode `mixed=` selects which gradient is taken)" % kw,
+                           mod=mod, node=c, sig="forward:" + ast.unparse(c.func))
+                    n += 1
+    ctx.need(n >= 9, "fewer than 9 nested gradient calls found in the quantum layer (%d)" % n)
+    # fallbacks taken through getattr(x, name, <lambda>)(args) must bind the arguments of the call
+    k = 0
+    for mod in (TEN, GATES, CIRC, ZX):
+        for q, fn in methods_of(m, mod):
+            if not isinstance(fn, ast.FunctionDef) or fn.name not in ("grad", "subs", "jacobian"):
+                continue
+            for c in ast.walk(fn):
+                if isinstance(c, ast.Call) and isinstance(c.func, ast.Call) and ast.unparse(c.func.func) == "getattr" and len(c.func.args) == 3 and isinstance(c.func.args[2], ast.Lambda):
+                    lam = c.func.args[2].args
+                    npos = len([a for a in c.args if not isinstance(a, ast.Starred)])
+                    star = any(isinstance(a, ast.Starred) for a in c.args)
+                    dstar = any(kk.arg is None for kk in c.keywords)
+                    named = [kk.arg for kk in c.keywords if kk.arg]
+                    ok = (len(lam.args) - len(lam.defaults) <= npos or star) and (npos <= len(lam.args) or lam.vararg is not None) and (not star or lam.vararg is not None or True) \
+                        and (not dstar or lam.kwarg is not None) and all(x in [a.arg for a in lam.args + lam.kwonlyargs] or lam.kwarg is not None for x in named)
+                    ctx.ob("R15.5", "%s:fallback[%s]" % (q, ast.unparse(c.func.args[1])), ok, found="lambda %s called as (%s)" % (ast.unparse(lam), ", ".join(ast.unparse(a) for a in c.args + [kk for kk in c.keywords])),
+                           required="the fallback for entries without the method accepts the same arguments (plain numbers differentiate to 0 under every option)", mod=mod, node=c, sig="fallback:" + ast.unparse(c.func.args[1]))
+                    k += 1
+    ctx.need(k >= 2, "fewer than 2 getattr fallbacks found in Tensor.grad / subs (%d)" % k)
+    # ClassicalGate.grad rebuilds from the evaluated array: the dagger is already applied
+    q = GATES + ".ClassicalGate.grad"
+    fn = m.func(q)
+    ctx.analysed(q)
+    ret = [r for r in fn.body if isinstance(r, ast.Return)]
+    ctx.need(bool(ret) and isinstance(ret[-1].value, ast.Call), "ClassicalGate.grad does not end with a constructor call")
+    call = ret[-1].value
+    data = shape.inline(call.args[3], fn.body) if len(call.args) >= 4 else next((shape.inline(kk.value, fn.body) for kk in call.keywords if kk.arg == "data"), None)
+    from_eval = data is not None and "self.eval()" in ast.unparse(data)
+    flag = call.args[4] if len(call.args) >= 5 else next((kk.value for kk in call.keywords if kk.arg == "_dagger"), None)
+    flag_ok = flag is None or (isinstance(flag, ast.Constant) and flag.value is False)
+    ctx.ob("R15.5", q + ":evaluated-array", (not from_eval) or flag_ok, found=ast.unparse(call), required="a gate rebuilt from self.eval() (where the functor has already applied the dagger) is not flagged as a dagger again",
+           mod=GATES, node=call, sig="classical-grad-flag")
+    if data is not None:
+        shape.match(ctx, "R15.5", q + ":data", data, "self.eval().grad(var, **params).array", {fn.args.args[1].arg: "var", fn.args.kwarg.arg if fn.args.kwarg else "params": "params"}, mod=GATES, node=call,
+                    sig="classical-grad-data", required="the entry-wise derivative of the evaluated array")
+
+
 def check(ctx):
     ctx.rule("R15.1", "product rule: grad = head' >> tail + head >> tail' with recursion on the tail; empty sum without dependence; jacobians in the order of the variables")
     ctx.rule("R15.2", "totality: every symbol-carrying box class has a grad guarded by the free-symbol test; unsupported modes raise NotImplementedError")
     ctx.rule("R15.3", "per-gate rules: the gradient term of each rotation class evaluates (pure / mixed) to the derivative of the class's own closed-form array")
     ctx.rule("R15.4", "scalars: the gradient keeps mixedness and differentiates the evaluated value")
+    ctx.rule("R15.5", "options and flags: **params reach every nested gradient, getattr fallbacks bind the call, evaluated arrays are not re-daggered")
     check_product_rule(ctx)
     check_totality(ctx)
     check_rotation_rules(ctx)
     check_scalars(ctx)
     check_spiders(ctx)
+    check_forwarding(ctx)
+    ctx.floor("R15.5", 13)
     ctx.floor("R15.1", 8)
     ctx.floor("R15.2", 12)
     ctx.floor("R15.3", 9)
